@@ -238,6 +238,7 @@ Proof.
     + apply le_aset_pending; exact E.
     + apply nopend_aset. destruct r; discriminate.
   - split_ifs; (split; cbn; [apply le_refl|apply nopend_refl]).
+  - split_ifs; (split; cbn; [apply le_refl|apply nopend_refl]).
   - (split; cbn; [apply le_refl|apply nopend_refl]).
 Qed.
 
@@ -259,6 +260,7 @@ Proof.
         (destruct (N.eq_dec i j) as [->|Hne]; [congruence|rewrite mem_remove_neq by exact Hne; apply H, Hj]).
     + split_ifs; intros j Hj; cbn in *;
         (destruct (N.eq_dec i j) as [->|Hne]; [congruence|rewrite mem_remove_neq by exact Hne; apply H, Hj]).
+  - split_ifs; exact H.
   - split_ifs; exact H.
   - exact H.
 Qed.
@@ -285,6 +287,7 @@ Proof.
     split_ifs; cbn; try rewrite aget_aset;
       try (replace (i0 =? i) with false by (symmetry; apply N.eqb_neq; exact N));
       split; try reflexivity; try (apply mem_remove_neq; exact N).
+  - split_ifs; cbn; split; reflexivity.
   - split_ifs; cbn; split; reflexivity.
   - split; reflexivity.
 Qed.
@@ -424,22 +427,86 @@ Qed.
 (* ------------------------------------------------------------------------------------ *)
 (* one step                                                                             *)
 (* ------------------------------------------------------------------------------------ *)
-(* what the exit watcher does when it is enabled (the hook raising or not makes no difference) *)
-Lemma server_exit_fires : forall c s rc,
-  xtask s = XWaiting -> proc s = Exited rc ->
-  futs (server_exit_task c s) = fail_all rc (rf s) (futs s) /\
-  rf (server_exit_task c s) = rf s /\
-  hook_calls (server_exit_task c s) = hook_calls s ++ [rc] /\
-  stopped (server_exit_task c s) = true /\
-  xtask (server_exit_task c s) = XDone /\
-  proc (server_exit_task c s) = proc s /\
-  reader (server_exit_task c s) = reader s /\
-  pipe (server_exit_task c s) = pipe s.
+(* ------------------------------------------------------------------------------------ *)
+(* the exit watcher                                                                     *)
+(* ------------------------------------------------------------------------------------ *)
+Lemma aget_in : forall l i, In i (map fst l) -> exists st', aget l i = Some st'.
 Proof.
-  intros c s rc X P. unfold server_exit_task. rewrite X, P. cbn.
-  destruct (hook_raises c); cbn; rewrite ?P; repeat split; reflexivity.
+  induction l as [|[k w] r IH]; intros i H; [contradiction|]. cbn [aget].
+  destruct (k =? i) eqn:E; [eauto|]. destruct H as [H|H]; [|apply IH, H].
+  cbn in H. subst. rewrite N.eqb_refl in E. discriminate.
 Qed.
 
+Lemma all_done_le : forall f f' ids, le f f' -> all_done f ids = true -> all_done f' ids = true.
+Proof.
+  intros f f' ids L H. unfold all_done in *. rewrite forallb_forall in *. intros i Hi.
+  specialize (H i Hi). destruct (aget f i) as [st|] eqn:E; [|discriminate].
+  destruct (L i st E) as [A _]. rewrite (A H). exact H.
+Qed.
+
+(* after the fail loop every future there is, is done *)
+Lemma fail_all_all_done : forall rc ids f,
+  (forall i, aget f i = Some Pending -> mem i ids = true) ->
+  all_done (fail_all rc ids f) (map fst (fail_all rc ids f)) = true.
+Proof.
+  intros rc ids f H. unfold all_done. apply forallb_forall. intros i Hi.
+  destruct (aget_in _ _ Hi) as (st & E). rewrite E.
+  destruct st; try reflexivity. exfalso.
+  destruct (fail_all_le rc ids f) as [_ B]. pose proof (B i E) as P.
+  rewrite (fail_all_pending rc ids f i P (H i P)) in E. discriminate.
+Qed.
+
+(* how many runs the exit watcher needs: a hook that suspends needs a second one *)
+Definition needs (c : config) : nat :=
+  match hook c with HookSlow | HookAwaits => 2 | _ => 1 end.
+
+(* the state after the fail loop, on entry into the hook *)
+Definition entered (s : state) (rc : Z) : state :=
+  set_hook_calls (set_futs s (fail_all rc (rf s) (futs s)))
+    (hook_calls s ++ [(rc, all_done (fail_all rc (rf s) (futs s))
+                              (map fst (fail_all rc (rf s) (futs s))))]).
+
+Lemma server_exit_enter : forall c s rc,
+  xtask s = XWaiting -> proc s = Exited rc ->
+  server_exit_task c s = finish_exit (entered s rc) \/
+  (server_exit_task c s =
+     set_xtask (entered s rc) (XInHook rc (map fst (fail_all rc (rf s) (futs s)))) /\
+   needs c = 2%nat).
+Proof.
+  intros c s rc X P. unfold server_exit_task, needs. rewrite X, P. cbn [futs set_futs hook_calls].
+  destruct (hook c); [left; reflexivity|left; reflexivity|right; split; reflexivity|].
+  unfold entered.
+  destruct (map fst (fail_all rc (rf s) (futs s))) eqn:E; [left; reflexivity|right; split; reflexivity].
+Qed.
+
+Lemma server_exit_resume : forall c s rc ids,
+  xtask s = XInHook rc ids ->
+  server_exit_task c s = finish_exit s \/
+  (server_exit_task c s = s /\ all_done (futs s) ids = false).
+Proof.
+  intros c s rc ids X. unfold server_exit_task. rewrite X.
+  destruct (hook c); auto. destruct (all_done (futs s) ids); auto.
+Qed.
+
+(* what no run of the exit watcher touches, and what it does to the futures *)
+Lemma server_exit_frame : forall c s,
+  futs_ok s (server_exit_task c s) /\ rf (server_exit_task c s) = rf s /\
+  proc (server_exit_task c s) = proc s /\ reader (server_exit_task c s) = reader s /\
+  pipe (server_exit_task c s) = pipe s.
+Proof.
+  intros c s. destruct (xtask s) eqn:X.
+  - destruct (proc s) eqn:P.
+    + unfold server_exit_task. rewrite X, P. split; [apply futs_ok_refl|repeat split; exact P].
+    + destruct (server_exit_enter c s rc X P) as [E|[E _]]; rewrite E; unfold futs_ok; cbn;
+        (split; [exact (fail_all_le rc (rf s) (futs s))|repeat split; exact P]).
+  - destruct (server_exit_resume c s rc awaited X) as [E|[E _]]; rewrite E; unfold futs_ok; cbn;
+      (split; [split; [apply le_refl|apply nopend_refl]|repeat split]).
+  - unfold server_exit_task. rewrite X. split; [apply futs_ok_refl|repeat split].
+Qed.
+
+(* ------------------------------------------------------------------------------------ *)
+(* one step                                                                             *)
+(* ------------------------------------------------------------------------------------ *)
 Lemma step_le : forall c s e, le (futs s) (futs (step c s e)).
 Proof.
   intros c s e. destruct e; cbn [step].
@@ -449,9 +516,7 @@ Proof.
   - unfold srv_write. destruct (proc s); cbn; apply le_refl.
   - unfold proc_exit. destruct (proc s); cbn; apply le_refl.
   - apply reader_run_futs.
-  - destruct (xtask s) eqn:X; [|unfold server_exit_task; rewrite X; apply le_refl].
-    destruct (proc s) eqn:P; [unfold server_exit_task; rewrite X, P; apply le_refl|].
-    destruct (server_exit_fires c s rc X P) as (A & _). rewrite A. apply fail_all_le.
+  - apply server_exit_frame.
   - cbn. apply le_refl.
 Qed.
 
@@ -474,8 +539,7 @@ Proof.
   - unfold srv_write. rewrite P. exact P.
   - unfold proc_exit. rewrite P. exact P.
   - destruct (reader_run_ctl c s) as (A & _). rewrite A. exact P.
-  - destruct (xtask s) eqn:X; [|unfold server_exit_task; rewrite X; exact P].
-    destruct (server_exit_fires c s rc X P) as (_ & _ & _ & _ & _ & A & _). rewrite A. exact P.
+  - destruct (server_exit_frame c s) as (_ & _ & A & _). rewrite A. exact P.
   - exact P.
 Qed.
 
@@ -485,42 +549,26 @@ Proof.
   rewrite run_from_cons. apply IH, step_proc_exited, P.
 Qed.
 
+Lemma step_reader_other : forall c s e, e <> ReaderRun -> reader (step c s e) = reader s.
+Proof.
+  intros c s e N. destruct e; cbn [step]; try reflexivity.
+  - unfold do_cancel. destruct (aget (futs s) i) as [[| | | |]|]; reflexivity.
+  - unfold srv_write. destruct (proc s); reflexivity.
+  - unfold proc_exit. destruct (proc s); reflexivity.
+  - contradiction.
+  - apply server_exit_frame.
+Qed.
+
 Lemma step_reader_ended : forall c s e, reader s = REnded -> reader (step c s e) = REnded.
 Proof.
-  intros c s e R. destruct e; cbn [step].
-  - exact R.
-  - unfold do_cancel. destruct (aget (futs s) i) as [[| | | |]|]; exact R.
-  - unfold srv_write. destruct (proc s); exact R.
-  - unfold proc_exit. destruct (proc s); exact R.
-  - unfold reader_run. rewrite R. exact R.
-  - destruct (xtask s) eqn:X; [|unfold server_exit_task; rewrite X; exact R].
-    destruct (proc s) eqn:P; [unfold server_exit_task; rewrite X, P; exact R|].
-    destruct (server_exit_fires c s rc X P) as (_ & _ & _ & _ & _ & _ & A & _). rewrite A. exact R.
-  - exact R.
+  intros c s e R. destruct e; try (rewrite step_reader_other by discriminate; exact R).
+  cbn [step]. unfold reader_run. rewrite R. exact R.
 Qed.
 
 Lemma run_reader_ended : forall c evs s, reader s = REnded -> reader (run_from c s evs) = REnded.
 Proof.
   intros c. induction evs as [|e r IH]; intros s R; [exact R|].
   rewrite run_from_cons. apply IH, step_reader_ended, R.
-Qed.
-
-Lemma step_xtask_done : forall c s e, xtask s = XDone -> xtask (step c s e) = XDone.
-Proof.
-  intros c s e X. destruct e; cbn [step].
-  - exact X.
-  - unfold do_cancel. destruct (aget (futs s) i) as [[| | | |]|]; exact X.
-  - unfold srv_write. destruct (proc s); exact X.
-  - unfold proc_exit. destruct (proc s); exact X.
-  - destruct (reader_run_ctl c s) as (_ & _ & A & _). rewrite A. exact X.
-  - unfold server_exit_task. rewrite X. exact X.
-  - exact X.
-Qed.
-
-Lemma run_xtask_done : forall c evs s, xtask s = XDone -> xtask (run_from c s evs) = XDone.
-Proof.
-  intros c. induction evs as [|e r IH]; intros s X; [exact X|].
-  rewrite run_from_cons. apply IH, step_xtask_done, X.
 Qed.
 
 Lemma step_xtask_other : forall c s e, e <> ServerExitTask -> xtask (step c s e) = xtask s.
@@ -533,6 +581,31 @@ Proof.
   - contradiction.
 Qed.
 
+Lemma step_xtask_done : forall c s e, xtask s = XDone -> xtask (step c s e) = XDone.
+Proof.
+  intros c s e X. destruct e; try (rewrite step_xtask_other by discriminate; exact X).
+  cbn [step]. unfold server_exit_task. rewrite X. exact X.
+Qed.
+
+Lemma run_xtask_done : forall c evs s, xtask s = XDone -> xtask (run_from c s evs) = XDone.
+Proof.
+  intros c. induction evs as [|e r IH]; intros s X; [exact X|].
+  rewrite run_from_cons. apply IH, step_xtask_done, X.
+Qed.
+
+(* what only the exit watcher changes, and the stop flag never goes back *)
+Lemma step_other_mid : forall c s e, e <> ServerExitTask ->
+  hook_calls (step c s e) = hook_calls s /\ (stopped s = true -> stopped (step c s e) = true).
+Proof.
+  intros c s e N. destruct e; cbn [step]; try (split; [reflexivity|exact (fun H => H)]).
+  - unfold do_cancel. destruct (aget (futs s) i) as [[| | | |]|]; split; auto.
+  - unfold srv_write. destruct (proc s); split; auto.
+  - unfold proc_exit. destruct (proc s); split; auto.
+  - destruct (reader_run_ctl c s) as (_ & _ & _ & A & B). rewrite A, B. split; auto.
+  - contradiction.
+  - split; reflexivity.
+Qed.
+
 (* ------------------------------------------------------------------------------------ *)
 (* the invariant                                                                        *)
 (* ------------------------------------------------------------------------------------ *)
@@ -540,7 +613,9 @@ Definition Inv (c : config) (s : state) : Prop :=
   pend_in_rf s /\
   match xtask s with
   | XWaiting => hook_calls s = []
-  | XDone => stopped s = true /\ exists rc, proc s = Exited rc /\ hook_calls s = [rc]
+  | XInHook rc ids =>
+    proc s = Exited rc /\ hook_calls s = [(rc, true)] /\ all_done (futs s) ids = true
+  | XDone => stopped s = true /\ exists rc, proc s = Exited rc /\ hook_calls s = [(rc, true)]
   end /\
   (good c -> forall e, reader s <> RRaised e).
 
@@ -552,44 +627,65 @@ Proof.
   - intros _ e. discriminate.
 Qed.
 
-Lemma inv_step : forall c s e, Inv c s -> Inv c (step c s e).
+Lemma step_pend : forall c s e, pend_in_rf s -> pend_in_rf (step c s e).
 Proof.
-  intros c s e (I1 & I2 & I3). destruct e; cbn [step].
-  - (* Send *) split; [|split; [exact I2|exact I3]].
-    intros j Hj. cbn [futs rf do_send] in *. rewrite mem_app.
+  intros c s e I1. destruct e; cbn [step].
+  - intros j Hj. cbn [futs rf do_send] in *. rewrite mem_app.
     destruct (aget (futs s) j) eqn:E.
     + rewrite (aget_app_some _ _ _ _ _ E) in Hj. rewrite I1; [reflexivity|congruence].
     + rewrite (aget_app_none _ _ _ _ E) in Hj. cbn [mem].
       destruct (next s =? j); [apply orb_true_r|discriminate].
-  - (* UserCancel *) unfold do_cancel.
-    destruct (aget (futs s) i) as [[| | | |]|] eqn:E; try (split; [exact I1|split; [exact I2|exact I3]]).
-    split; [|split; [exact I2|exact I3]].
+  - unfold do_cancel. destruct (aget (futs s) i) as [[| | | |]|] eqn:E; try exact I1.
     intros j Hj. cbn [futs rf set_futs] in *. apply I1.
     apply (nopend_aset (futs s) i Cancelled); [discriminate|exact Hj].
-  - (* SrvWrite *) unfold srv_write. destruct (proc s) eqn:P; (split; [exact I1|split; [|exact I3]]).
-    + cbn. rewrite ?P. exact I2.
-    + rewrite ?P. exact I2.
-  - (* ProcExit *) unfold proc_exit.
-    destruct (proc s) eqn:P; [|rewrite <- P in I2; split; [exact I1|split; [exact I2|exact I3]]].
-    split; [exact I1|split; [|exact I3]]. cbn [xtask hook_calls stopped proc].
-    destruct (xtask s); [exact I2|]. destruct I2 as (_ & rc' & Q & _). discriminate.
-  - (* ReaderRun *) destruct (reader_run_ctl c s) as (A1 & A2 & A3 & A4 & A5).
-    split; [apply reader_run_pend, I1|split].
-    + rewrite A3, A4, A5, A1. exact I2.
-    + intros G. apply reader_run_noraise; [exact G|apply I3, G].
-  - (* ServerExitTask *)
-    destruct (xtask s) eqn:X;
-      [|unfold server_exit_task; rewrite X; split; [exact I1|split; [rewrite X; exact I2|exact I3]]].
-    destruct (proc s) eqn:P;
-      [unfold server_exit_task; rewrite X, P; split; [exact I1|split; [rewrite X; exact I2|exact I3]]|].
-    destruct (server_exit_fires c s rc X P) as (A1 & A2 & A3 & A4 & A5 & A6 & A7 & A8).
-    split; [|split].
-    + intros j Hj. rewrite A1 in Hj. rewrite A2. apply I1.
-      destruct (fail_all_le rc (rf s) (futs s)) as [_ B]. apply B, Hj.
-    + rewrite A5, A4, A6, A3, I2. split; [reflexivity|]. exists rc. split; [exact P|reflexivity].
-    + rewrite A7. exact I3.
-  - (* Stop *) split; [exact I1|split; [|exact I3]]. cbn [xtask hook_calls stopped proc do_stop].
-    destruct (xtask s); [exact I2|]. destruct I2 as (_ & Q). split; [reflexivity|exact Q].
+  - unfold srv_write. destruct (proc s); exact I1.
+  - unfold proc_exit. destruct (proc s); exact I1.
+  - apply reader_run_pend, I1.
+  - destruct (server_exit_frame c s) as ((_ & B) & A & _).
+    intros j Hj. rewrite A. apply I1, B, Hj.
+  - exact I1.
+Qed.
+
+Lemma step_noraise : forall c s e, good c ->
+  (forall x, reader s <> RRaised x) -> forall x, reader (step c s e) <> RRaised x.
+Proof.
+  intros c s e G H. destruct e; try (rewrite step_reader_other by discriminate; exact H).
+  cbn [step]. apply reader_run_noraise; assumption.
+Qed.
+
+Lemma inv_step : forall c s e, Inv c s -> Inv c (step c s e).
+Proof.
+  intros c s e (I1 & I2 & I3).
+  split; [apply step_pend, I1|split; [|intros G; apply step_noraise; [exact G|apply I3, G]]].
+  assert (Other : e <> ServerExitTask ->
+    match xtask (step c s e) with
+    | XWaiting => hook_calls (step c s e) = []
+    | XInHook rc ids => proc (step c s e) = Exited rc /\ hook_calls (step c s e) = [(rc, true)] /\
+                        all_done (futs (step c s e)) ids = true
+    | XDone => stopped (step c s e) = true /\
+               exists rc, proc (step c s e) = Exited rc /\ hook_calls (step c s e) = [(rc, true)]
+    end).
+  { intros N. rewrite (step_xtask_other c s e N). destruct (step_other_mid c s e N) as [A B].
+    rewrite A. destruct (xtask s).
+    - exact I2.
+    - destruct I2 as (P & Hh & D). split; [apply step_proc_exited, P|split; [exact Hh|]].
+      eapply all_done_le; [apply step_le|exact D].
+    - destruct I2 as (St & rc & P & Hh). split; [apply B, St|].
+      exists rc. split; [apply step_proc_exited, P|exact Hh]. }
+  destruct e; try (apply Other; discriminate).
+  cbn [step]. destruct (xtask s) eqn:X.
+  - destruct (proc s) eqn:P.
+    + unfold server_exit_task. rewrite X, P, X. exact I2.
+    + assert (D : all_done (fail_all rc (rf s) (futs s)) (map fst (fail_all rc (rf s) (futs s))) = true)
+        by (apply fail_all_all_done; exact I1).
+      destruct (server_exit_enter c s rc X P) as [E|[E _]]; rewrite E; cbn; rewrite I2, D.
+      * split; [reflexivity|]. exists rc. split; [exact P|reflexivity].
+      * split; [exact P|split; reflexivity].
+  - destruct I2 as (P & Hh & D).
+    destruct (server_exit_resume c s rc awaited X) as [E|[E _]]; rewrite E.
+    + cbn. split; [reflexivity|]. exists rc. split; [exact P|exact Hh].
+    + rewrite X. split; [exact P|split; [exact Hh|exact D]].
+  - unfold server_exit_task. rewrite X, X. exact I2.
 Qed.
 
 Lemma inv_run_from : forall c evs s, Inv c s -> Inv c (run_from c s evs).
@@ -605,30 +701,38 @@ Proof. intros c evs. apply inv_run_from, inv_init. Qed.
 (* liveness-style statements: event lists that contain the enabling events               *)
 (* ------------------------------------------------------------------------------------ *)
 
-(* The exit watcher, once the process is dead: whenever its event occurs in the rest of the
-   schedule, however late and whatever else happens, it has run at the end and every future
-   that existed when it was still waiting is done. *)
+(* A hook that suspended (on a timer, or waiting for the requests it knew of - which are all
+   done already) is finished by the next run of the exit watcher. *)
+Lemma hook_resumes : forall c rest s rc ids,
+  Inv c s -> xtask s = XInHook rc ids -> (1 <= count_xtask rest)%nat ->
+  xtask (run_from c s rest) = XDone.
+Proof.
+  intros c. induction rest as [|e r IH]; intros s rc ids I X H; [cbn in H; inversion H|].
+  rewrite run_from_cons.
+  assert (Wait : e <> ServerExitTask -> (1 <= count_xtask r)%nat ->
+            xtask (run_from c (step c s e) r) = XDone).
+  { intros Ne Hr. apply (IH _ rc ids (inv_step c s e I)); [|exact Hr].
+    rewrite step_xtask_other by exact Ne. exact X. }
+  destruct e; try (apply Wait; [discriminate|exact H]).
+  apply run_xtask_done. cbn [step].
+  destruct I as (_ & I2 & _). rewrite X in I2. destruct I2 as (_ & _ & D).
+  destruct (server_exit_resume c s rc ids X) as [E|[_ E]]; [rewrite E; reflexivity|].
+  rewrite D in E. discriminate.
+Qed.
+
+(* The exit watcher, once the process is dead: whenever it gets the runs it needs in the rest of
+   the schedule, however late and whatever else happens, it has finished at the end and every
+   future that existed when it was still waiting is done. *)
 Lemma exit_task_fires : forall c rest s rc,
-  Inv c s -> proc s = Exited rc -> xtask s = XWaiting -> In ServerExitTask rest ->
+  Inv c s -> proc s = Exited rc -> xtask s = XWaiting -> (needs c <= count_xtask rest)%nat ->
   xtask (run_from c s rest) = XDone /\
   forall i st, aget (futs s) i = Some st ->
     exists st', aget (futs (run_from c s rest)) i = Some st' /\ is_done st' = true.
 Proof.
-  intros c. induction rest as [|e r IH]; intros s rc I P X H; [contradiction|].
+  intros c. induction rest as [|e r IH]; intros s rc I P X H.
+  { unfold needs in H. cbn in H. destruct (hook c); inversion H. }
   rewrite run_from_cons.
-  assert (Fire : e = ServerExitTask ->
-    xtask (run_from c (step c s e) r) = XDone /\
-    forall i st, aget (futs s) i = Some st ->
-      exists st', aget (futs (run_from c (step c s e) r)) i = Some st' /\ is_done st' = true).
-  { intros ->. cbn [step].
-    destruct (server_exit_fires c s rc X P) as (A1 & A2 & A3 & A4 & A5 & _).
-    split; [apply run_xtask_done, A5|].
-    intros i st Hi. destruct I as (I1 & _).
-    assert (D : mem i (rf s) = true \/ is_done st = true).
-    { destruct st; try (right; reflexivity). left. apply I1, Hi. }
-    destruct (fail_all_done rc (rf s) (futs s) i st Hi D) as (st' & B1 & B2).
-    exists st'. split; [|exact B2]. apply done_stable; [rewrite A1; exact B1|exact B2]. }
-  assert (Wait : e <> ServerExitTask -> In ServerExitTask r ->
+  assert (Wait : e <> ServerExitTask -> (needs c <= count_xtask r)%nat ->
     xtask (run_from c (step c s e) r) = XDone /\
     forall i st, aget (futs s) i = Some st ->
       exists st', aget (futs (run_from c (step c s e) r)) i = Some st' /\ is_done st' = true).
@@ -637,8 +741,22 @@ Proof.
       [rewrite step_xtask_other by exact Ne; exact X|exact Hr|].
     split; [exact B1|]. intros i st Hi.
     destruct (step_le c s e i st Hi) as [_ [st1 H1]]. apply (B2 i st1 H1). }
-  destruct e; try (apply Wait; [discriminate|destruct H as [H|H]; [discriminate|exact H]]).
-  apply Fire. reflexivity.
+  destruct e; try (apply Wait; [discriminate|exact H]).
+  cbn [step]. cbn [count_xtask is_xtask] in H.
+  assert (F : futs (server_exit_task c s) = fail_all rc (rf s) (futs s)).
+  { destruct (server_exit_enter c s rc X P) as [E|[E _]]; rewrite E; reflexivity. }
+  split.
+  - destruct (server_exit_enter c s rc X P) as [E|[E N]].
+    + apply run_xtask_done. rewrite E. reflexivity.
+    + apply (hook_resumes c r _ rc (map fst (fail_all rc (rf s) (futs s)))).
+      * apply (inv_step c s ServerExitTask I).
+      * rewrite E. reflexivity.
+      * rewrite N in H. apply le_S_n, H.
+  - intros i st Hi. destruct I as (I1 & _).
+    assert (D : mem i (rf s) = true \/ is_done st = true).
+    { destruct st; try (right; reflexivity). left. apply I1, Hi. }
+    destruct (fail_all_done rc (rf s) (futs s) i st Hi D) as (st' & B1 & B2).
+    exists st'. split; [|exact B2]. apply done_stable; [rewrite F; exact B1|exact B2].
 Qed.
 
 (* The reader task, once the process is dead (repaired code): one more run ends it normally. *)
@@ -657,12 +775,13 @@ Qed.
 
 (* The statement of C17 over the model. *)
 Theorem client_exit : forall c h rc t rest,
-  good c -> proc (run c h) = Alive -> In ServerExitTask rest -> In ReaderRun rest ->
+  good c -> proc (run c h) = Alive ->
+  (needs c <= count_xtask rest)%nat -> In ReaderRun rest ->
   let s0 := run c h in
   let s := run c (h ++ ProcExit rc t :: rest) in
   (forall i st, aget (futs s0) i = Some st ->
      exists st', aget (futs s) i = Some st' /\ is_done st' = true /\ (is_done st = true -> st' = st)) /\
-  hook_calls s = [rc] /\ stopped s = true /\ stop_outcome s = StopReturns.
+  hook_calls s = [(rc, true)] /\ stopped s = true /\ stop_outcome s = StopReturns.
 Proof.
   intros c h rc t rest G A HX HR s0 s.
   change (proc s0 = Alive) in A.
@@ -675,8 +794,9 @@ Proof.
   assert (F1 : futs s1 = futs s0).
   { unfold s1. cbn [step]. unfold proc_exit. rewrite A. reflexivity. }
   assert (X0 : xtask s0 = XWaiting).
-  { destruct I0 as (_ & I2 & _). destruct (xtask s0); [reflexivity|].
-    destruct I2 as (_ & rc' & Q & _). rewrite A in Q. discriminate. }
+  { destruct I0 as (_ & I2 & _). destruct (xtask s0); [reflexivity| |].
+    - destruct I2 as (Q & _). rewrite A in Q. discriminate.
+    - destruct I2 as (_ & rc' & Q & _). rewrite A in Q. discriminate. }
   assert (X1 : xtask s1 = XWaiting).
   { unfold s1. rewrite step_xtask_other by discriminate. exact X0. }
   assert (I1 : Inv c s1) by (apply inv_step, I0).
@@ -694,8 +814,9 @@ Proof.
     rewrite (reader_ends c rest s1 rc G I1 P1 HR), XD. reflexivity.
 Qed.
 
-(* Finer: a request nobody answered and nobody cancelled fails with the exit error, carrying
-   the return code (any code variant). *)
+(* Finer: a request nobody answered decodably and nobody cancelled fails with the exit error,
+   carrying the return code (any code variant, any hook).  An undecodable reply (BadReply) does
+   not count as an answer: the request stays outstanding and is failed like the others. *)
 Fixpoint no_cancel_of (i : id) (evs : list event) : bool :=
   match evs with
   | [] => true
@@ -734,8 +855,10 @@ Proof.
     apply Wait; [discriminate|destruct H as [H|H]; [discriminate|exact H]|exact NC| |].
     + cbn [step]. rewrite A1. exact Hi.
     + cbn [step]. exact A3.
-  - cbn [step]. destruct (server_exit_fires c s rc X P) as (A1 & _).
-    apply done_stable; [|reflexivity]. rewrite A1.
+  - cbn [step].
+    assert (F : futs (server_exit_task c s) = fail_all rc (rf s) (futs s)).
+    { destruct (server_exit_enter c s rc X P) as [E|[E _]]; rewrite E; reflexivity. }
+    apply done_stable; [|reflexivity]. rewrite F.
     apply fail_all_pending; [exact Hi|]. destruct I as (I1 & _). apply I1, Hi.
   - apply Wait; [discriminate|destruct H as [H|H]; [discriminate|exact H]|exact NC| |]; cbn; assumption.
 Qed.
@@ -743,7 +866,7 @@ Qed.
 Theorem exit_fails_all_outstanding : forall c h rc t rest i,
   proc (run c h) = Alive ->
   aget (futs (run c h)) i = Some Pending ->        (* outstanding when the server dies *)
-  no_reply_to i (pipe (run c h)) = true ->          (* no answer to it is in flight *)
+  no_reply_to i (pipe (run c h)) = true ->          (* no decodable answer to it is in flight *)
   no_cancel_of i rest = true ->                     (* the caller does not cancel it meanwhile *)
   In ServerExitTask rest ->
   aget (futs (run c (h ++ ProcExit rc t :: rest))) i = Some (FailedExit rc).
@@ -757,25 +880,33 @@ Proof.
   - apply inv_step, I0.
   - rewrite E. unfold proc_exit. rewrite A. reflexivity.
   - rewrite step_xtask_other by discriminate.
-    destruct I0 as (_ & I2 & _). destruct (xtask (run c h)); [reflexivity|].
-    destruct I2 as (_ & rc' & Q' & _). rewrite A in Q'. discriminate.
+    destruct I0 as (_ & I2 & _). destruct (xtask (run c h)); [reflexivity| |].
+    + destruct I2 as (Q' & _). rewrite A in Q'. discriminate.
+    + destruct I2 as (_ & rc' & Q' & _). rewrite A in Q'. discriminate.
   - rewrite E. unfold proc_exit. rewrite A. exact Hi.
   - rewrite E. unfold proc_exit. rewrite A. exact Q.
 Qed.
 
+Lemma needs_in : forall c rest, (needs c <= count_xtask rest)%nat -> In ServerExitTask rest.
+Proof.
+  intros c. induction rest as [|e r IH]; intros H.
+  - unfold needs in H. cbn in H. destruct (hook c); inversion H.
+  - destruct e; cbn [count_xtask is_xtask] in H; try (right; apply IH, H). left. reflexivity.
+Qed.
+
 (* named clauses (DESIGN Appendix B) *)
 Corollary hook_once : forall c h rc t rest,
-  good c -> proc (run c h) = Alive -> In ServerExitTask rest -> In ReaderRun rest ->
-  hook_calls (run c (h ++ ProcExit rc t :: rest)) = [rc].
+  good c -> proc (run c h) = Alive -> (needs c <= count_xtask rest)%nat -> In ReaderRun rest ->
+  hook_calls (run c (h ++ ProcExit rc t :: rest)) = [(rc, true)].
 Proof. intros. apply client_exit; assumption. Qed.
 
 Corollary stopped_set : forall c h rc t rest,
-  good c -> proc (run c h) = Alive -> In ServerExitTask rest -> In ReaderRun rest ->
+  good c -> proc (run c h) = Alive -> (needs c <= count_xtask rest)%nat -> In ReaderRun rest ->
   stopped (run c (h ++ ProcExit rc t :: rest)) = true.
 Proof. intros. apply client_exit; assumption. Qed.
 
 Corollary stop_returns : forall c h rc t rest,
-  good c -> proc (run c h) = Alive -> In ServerExitTask rest -> In ReaderRun rest ->
+  good c -> proc (run c h) = Alive -> (needs c <= count_xtask rest)%nat -> In ReaderRun rest ->
   stop_outcome (run c (h ++ ProcExit rc t :: rest)) = StopReturns.
 Proof. intros. apply client_exit; assumption. Qed.
 
@@ -811,13 +942,6 @@ Definition weak_expect (f : list (id * fstate)) (i : id) : id * expect :=
 Definition weak_expects (f : list (id * fstate)) : list (id * expect) :=
   map (weak_expect f) (map fst f).
 
-Lemma aget_in : forall l i, In i (map fst l) -> exists st', aget l i = Some st'.
-Proof.
-  induction l as [|[k w] r IH]; intros i H; [contradiction|]. cbn [aget].
-  destruct (k =? i) eqn:E; [eauto|]. destruct H as [H|H]; [|apply IH, H].
-  cbn in H. subst. rewrite N.eqb_refl in E. discriminate.
-Qed.
-
 (* spec_ok is exactly the conjunction of the clauses *)
 Lemma spec_ok_iff : forall exps o,
   spec_ok exps o = true <->
@@ -843,7 +967,7 @@ Qed.
    observation with the expectations "done futures unchanged, pending ones done": i.e. spec_ok is
    the function the clauses of client_exit describe. *)
 Theorem reference_agrees : forall c h rc t rest,
-  good c -> proc (run c h) = Alive -> In ServerExitTask rest -> In ReaderRun rest ->
+  good c -> proc (run c h) = Alive -> (needs c <= count_xtask rest)%nat -> In ReaderRun rest ->
   spec_ok (weak_expects (futs (run c h))) (observe (run c (h ++ ProcExit rc t :: rest))) = true.
 Proof.
   intros c h rc t rest G A HX HR.
